@@ -5,8 +5,9 @@ import subprocess
 import sys
 
 import engine_a
+import engine_simple
 import scenarios
-from vlib import VERIF, log
+from vlib import VERIF, build, log
 
 CHECKS = {}
 
@@ -54,18 +55,84 @@ def c14(tier, args):
     return engine_a.run_scenarios("C14", tier, scs, _deadline(args, 600, 3000, tier))
 
 
+QSBR_RULE = ("every schedule of each program set (2-4 real threads driving the real QSBR through quiescent / retire / "
+             "allocate / pause / resume / exit / start) with at most `bound` scheduling deviations (preemptions; for the "
+             "4-thread role family every deviation from round-robin at a switch point counts too), every QSBR atomic a "
+             "scheduling point, each followed by a deterministic drain; non-trivial = distinct event logs in which memory "
+             "was freed while another thread was registered")
+QSBR_ASSUMPTIONS = [
+    "sequentially consistent interleavings only; compare_exchange_weak treated as strong (x86)",
+    "2-4 threads, programs of at most 3 operations (role family: up to 4); bounds as reported",
+    "the may-hold oracle is the QSBR contract: a thread may hold every object that was published at a moment at which it "
+    "was registered (by completed calls) since its latest invocation of quiescent/pause/exit",
+    "replay determinism: every violation re-executed twice from its schedule before being reported",
+]
+
+
+@check("C05")
+def c05(tier, args):
+    scs = _filter(scenarios.qsbr("C05", tier), args)
+    return engine_a.run_scenarios("C05", tier, scs, _deadline(args, 600, 3000, tier), rule=QSBR_RULE,
+                                  assumptions=QSBR_ASSUMPTIONS)
+
+
+@check("C06")
+def c06(tier, args):
+    scs = _filter(scenarios.qsbr("C06", tier), args)
+    return engine_a.run_scenarios("C06", tier, scs, _deadline(args, 600, 3000, tier), rule=QSBR_RULE,
+                                  assumptions=QSBR_ASSUMPTIONS)
+
+
+# ---------------------------------------------------------------------------
+# engine C: exhaustive enumeration of the key codec domains
+def codec_binary():
+    return build("codec", ["engines/enum/codec.cpp"], ["-O2"], repo_sources=[])
+
+
+def _codec(prop, tier):
+    b = codec_binary()
+    # the full 2^32 successor chains take ~10 s each on 16 cores, so both
+    # tiers walk the complete domains ("thorough" in the runner's terms)
+    args = ["--property", prop, "--tier", "thorough", "--threads", "16"]
+    return engine_simple.run_protocol_check(
+        prop, tier, [dict(binary=b, args=args, label="codec-" + prop, source="engines/enum/codec.cpp",
+                          build="g++ -std=c++20 -O2 -mavx2 -I/repo codec.cpp")],
+        "exhaustive enumeration of finite encoder/decoder input domains against independently written reference orders:",
+        ["64-bit integers, doubles, long texts and tuples are covered on the stated structured finite domains only",
+         "texts contain no interior zero bytes (excluded by the statement)",
+         "the reference orders (integer <, IEEE total order with NaNs unified, bytewise text order after normalisation) are trusted"],
+        engine="enum")
+
+
+@check("C11")
+def c11(tier, args):
+    return _codec("C11", tier)
+
+
+@check("C12")
+def c12(tier, args):
+    return _codec("C12", tier)
+
+
+@check("C15")
+def c15(tier, args):
+    return _codec("C15", tier)
+
+
 def setup():
     """build every runner once for the current tree (content-keyed cache)"""
     engine_a.olc_binary(True)
+    engine_a.qsbr_binary(True)
+    codec_binary()
     return 0
 
 
 def replay(path):
     payload = json.load(open(path))
     eng = payload.get("engine", "")
-    if eng == "sched/olc":
+    if eng in ("sched/olc", "sched/qsbr"):
         import tempfile
-        binary = engine_a.olc_binary(True)
+        binary = engine_a.binary_for(payload["scenario"])
         tmp = tempfile.mkdtemp(prefix="verif-replay-")
         rc, res, se = engine_a.replay_once(binary, payload["scenario"], payload["choices"], tmp, "r")
         print("exit status:", rc)
@@ -76,5 +143,17 @@ def replay(path):
                 print("  ", v["what"])
             return 1 if res["violations"] else 0
         return 1 if rc in (40, 41, 43, 44) or (isinstance(rc, int) and rc < 0) else 3
+    if eng in ("enum", "wrap", "seqmc"):
+        b = build(**payload["build_spec"]) if "build_spec" in payload else codec_binary()
+        r = subprocess.run([b] + payload["args"] + ["--replay-arg", payload["replay_arg"], "--out", "/dev/stdout"],
+                           capture_output=True, text=True)
+        print(r.stdout[-4000:])
+        try:
+            res = json.loads(r.stdout)
+        except ValueError:
+            return 3
+        for v in res.get("violations", []):
+            print("VIOLATION property=%s replay=%s" % (v.get("property", payload["property"]), path))
+        return 1 if res.get("violations") else 0
     log("unknown engine in replay file:", eng)
     return 3
